@@ -4,9 +4,3 @@ NOT_BUILT = "check not built yet in this round (planned in DESIGN.md §4); not c
 NOT_APPLICABLE = {("C%02d" % i): NOT_BUILT for i in range(1, 21)}
 
 META = {}
-META["C12"] = {
-    "text": "Lean theorems: the decoder inverts the kernel's octal escaping for every byte string and every escape set containing the backslash (unescape_mangle); per-line and overlay-option recovery theorems; the Lean model of ProbeMounts/GetMount/GetMountSources is tied to the Go code by differential runs on generated and mutated mount tables, and the implementation's observation is judged against an independent Lean specification of what the kernel renders.",
-    "design_ref": "§4 C12",
-    "note": "Trusted: Lean kernel; my transcription of the kernel's mountinfo rendering (Lc/Spec/KernelEscape, KernelRender); the correspondence harness; bufio.Scanner 64 KiB line limit assumed not reached. Whole-table theorem status is stated in DESIGN.md §4 C12.",
-    "technique": "Lean 4 proof (induction over byte strings) + differential correspondence model vs Go",
-}
